@@ -18,7 +18,7 @@ import traceback
 from .common import NCPU
 
 
-class _Timeout(Exception):
+class _Timeout(BaseException):  # must not be swallowed by "except Exception" in oracles
     pass
 
 
@@ -38,7 +38,7 @@ def corpus_ctx(mod):
     }
 
 
-def build_edge_unit(name, p, q, mode, rng, cap, trace=False, race=False, extra=None):
+def build_edge_unit(name, p, q, mode, rng, cap, trace=False, race=False, extra=None, max_cells=4000):
     """p, q: exo Procedure.  Returns unit (with inputs) or raises ExportError."""
     from exo.core.proc_eqv import get_strictest_eqv_proc
     from .export import make_unit
@@ -53,7 +53,7 @@ def build_edge_unit(name, p, q, mode, rng, cap, trace=False, race=False, extra=N
                          trace=trace, race=race, extra=extra)
     unit["reported_eqv"] = bool(is_eqv)
     unit["modset_names"] = sorted(f"{c.name()}.{f}" for (c, f) in keys)
-    sides = gen_inputs(pa, ex.cfgtypes(), mode, rng, cap=cap, procs_for_literals=[pb])
+    sides = gen_inputs(pa, ex.cfgtypes(), mode, rng, cap=cap, procs_for_literals=[pb], max_cells=max_cells)
     unit["inputs"] = [{"a": s} for s in sides]
     unit["features"] = sorted(ex.features)
     return unit
